@@ -76,18 +76,42 @@ func genC07(r *h.Rng, tier string, idx int) *h.Plan {
 		} else if delta > 0 {
 			exps = append(exps, (at + delta).Truncate(time.Second))
 		}
+		// the same content written again under the same id, with another expiry or
+		// with none: the last write decides (the old instant stays an observation point)
+		var again map[string]interface{}
+		if delta > 0 && len(fields) > 0 && r.P(1, 5) {
+			again = map[string]interface{}{}
+			if r.Bool() {
+				d2 := deltas[r.Intn(len(deltas))]
+				again, _ = expiryFields(r, at, d2)
+				exps = append(exps, (at + d2).Truncate(time.Second))
+			}
+		}
 		if r.Bool() {
 			f := map[string]interface{}{"kind": "thing", "n": fmt.Sprintf("v%d", i)}
 			for k, v := range fields {
 				f[k] = v
 			}
 			p.Ops = append(p.Ops, h.Op{K: "addfact", Loc: "L", Id: id, J: f})
-		} else {
-			rule := map[string]interface{}{"when": map[string]interface{}{"pattern": map[string]interface{}{"ev": fmt.Sprintf("v%d", i)}}, "action": map[string]interface{}{"code": "1"}}
-			for k, v := range fields {
-				rule[k] = v
+			if again != nil {
+				f2 := map[string]interface{}{"kind": "thing", "n": fmt.Sprintf("v%d", i)}
+				for k, v := range again {
+					f2[k] = v
+				}
+				p.Ops = append(p.Ops, h.Op{K: "addfact", Loc: "L", Id: id, J: f2})
 			}
-			p.Ops = append(p.Ops, h.Op{K: "addrule", Loc: "L", Id: id, J: rule})
+		} else {
+			mk := func(fs map[string]interface{}) map[string]interface{} {
+				rule := map[string]interface{}{"when": map[string]interface{}{"pattern": map[string]interface{}{"ev": fmt.Sprintf("v%d", i)}}, "action": map[string]interface{}{"code": "1"}}
+				for k, v := range fs {
+					rule[k] = v
+				}
+				return rule
+			}
+			p.Ops = append(p.Ops, h.Op{K: "addrule", Loc: "L", Id: id, J: mk(fields)})
+			if again != nil {
+				p.Ops = append(p.Ops, h.Op{K: "addrule", Loc: "L", Id: id, J: mk(again)})
+			}
 			events = append(events, map[string]interface{}{"ev": fmt.Sprintf("v%d", i)})
 		}
 		if r.P(1, 3) {
